@@ -61,7 +61,8 @@ Print Assumptions C11_dec_total.
     bytes remaining when it is requested.  (ii) One iteration of the work-list loop consumes at
     least two bytes and pushes at most as many frames as bytes remain after it.
     (iii) Over a whole run the pending work list never exceeds (kMaxSubmetadataLevel + 2) * input
-    length + 1 frames -- NOT the input length: the real decoder shows this amplification. *)
+    length + 1 frames -- NOT the input length: the real decoder shows this amplification
+    (a 64 KiB block makes it hold ~65 million 24-byte frames = 1.5 GB before it fails). *)
 Theorem C11_entry_alloc_bounded : forall bs sz rem, entry_alloc bs = Some (sz, rem) -> sz <= rem /\ rem < len bs.
 Proof. exact entry_alloc_bounded. Qed.
 Print Assumptions C11_entry_alloc_bounded.
@@ -72,6 +73,20 @@ Theorem C11_stack_step_bounded : forall root par level stk bs root2 stk2 r,
   exists pushed, stk2 = pushed ++ stk /\ (length pushed <= length r)%nat.
 Proof. intros. eapply stack_step_total. eassumption. Qed.
 Print Assumptions C11_stack_step_bounded.
+
+(** (iii) [reach] = the states the while loop passes through (iteration of [stack_step], which
+    [stack_loop] performs).  kMaxSubmetadataLevel + 2 = 1002. *)
+Theorem C11_stack_peak_bound : forall bs0 root stk bs,
+  reach (Node [] [], [(None, 0)], bs0) (root, stk, bs) ->
+  Z.of_nat (length stk) <= (kMaxSubmetadataLevel + 2) * Z.of_nat (length bs0) + 1 /\
+  (length bs <= length bs0)%nat.
+Proof. exact stack_peak_bound. Qed.
+Print Assumptions C11_stack_peak_bound.
+
+Theorem C11_stack_loop_reach : forall fuel root stk bs t r,
+  stack_loop fuel root stk bs = Ok (t, r) -> reach (root, stk, bs) (t, [], r).
+Proof. exact stack_loop_reach. Qed.
+Print Assumptions C11_stack_loop_reach.
 
 (** Non-vacuity: a two-level tree with two entries per level and attribute metadata. *)
 Definition ex_tree : node :=
